@@ -134,7 +134,26 @@ def judge_frame(v, r):
     return out
 
 
+def with_batches(vec):
+    """two batch lines after the vectors: >= 40 accepted units with different payloads whose received messages are kept
+    and compared only after the whole batch (one connection; four connections with parallel readers)"""
+    good, seen = [], set()
+    for v in vec:
+        if v["kind"] == "vec" and v["expect"]["res"] == "accept" and 1 <= v["declared"] <= 513 and v["size"] <= READ_SIZE:
+            k = (v["declared"], v["fill"])
+            if k not in seen:
+                seen.add(k)
+                good.append(v["id"])
+    good = good[:48]
+    n = len(vec)
+    return vec + [{"kind": "batch", "id": n, "mode": "one", "ids": good, "expect": {"res": "accept"}},
+                  {"kind": "batch", "id": n + 1, "mode": "parallel", "ids": good, "expect": {"res": "accept"}}], len(good)
+
+
 def run_frames(ctx, vec, net):
+    vec, nbatch = with_batches(vec)
+    if nbatch < 40:
+        raise kit.Inconclusive("only %d distinct accepted units for the batch replay" % nbatch)
     vfile = os.path.join(ctx.work, "vectors.ndjson")
     kit.write_ndjson(vfile, vec)
     rfile = os.path.join(ctx.work, "frames-%s.ndjson" % net)
@@ -151,6 +170,16 @@ def run_frames(ctx, vec, net):
     for v, r in zip(vec, res):
         if r["outcome"] == "infra":
             ctx.notes.append("frame vector %d (%s): %s" % (v["id"], net, r.get("infra")))
+            continue
+        if v["kind"] == "batch":
+            ctx.case(key=("batch", net, v["mode"]), nontrivial=True)
+            ctx.cov["traces_validated_against_impl"] += 1
+            ctx.cov.setdefault("frame_batches", {})[net + "/" + v["mode"]] = {"frames": r.get("batchN"), "changed_afterwards": r.get("corrupted", 0)}
+            if r.get("corrupted"):
+                found.setdefault("frame/payload-changed-after-later-read", []).append({
+                    "socket": net, "vector": v, "result": r,
+                    "what": "%d of %d messages that were received correctly no longer equal the frame that was sent once the later frames "
+                            "of the batch (%s) had been read: %s" % (r["corrupted"], r["batchN"], v["mode"], r.get("firstBad"))})
             continue
         if v["kind"] == "tail":
             # observation only: frames beyond the read size are outside the model's one-frame-one-read-unit assumption
@@ -214,6 +243,13 @@ def judge_seq(b, r):
     badtxt = ""
     if bad:
         badtxt = " malformed unit(s): " + ", ".join("%s type=%d declared=%d carried=%d" % (x["cls"], x["type"], x["declared"], x["carried"]) for x in bad)
+    ov = r.get("overtaken")
+    if ov:
+        out.append(("handover/later-request-overtakes-running-step",
+                    "child %d wrote %s while the step %s of its previous request was still running (the recording Instance held it for %s): "
+                    "%s showed up before %s was finished and acknowledged - steps are not performed in the order requested | script: %s" % (
+                        ov["child"], ov["later"], ov["inProgress"], ov["within"], ov["saw"], ov["inProgress"], script)))
+        return out
     bl = r.get("blocked")
     if bl:
         # a hang / a lost request of the real code: the statement says every requested step is performed and
@@ -466,12 +502,50 @@ def e2e_expectation(b):
     return out
 
 
-def run_e2e(ctx, behs):
+def build_samaritan():
     binp = os.path.join(kit.BIN_DIR, "samaritan-c17")
     p = subprocess.run(["go", "build", "-o", binp, "./cmd/samaritan"], cwd=kit.REPO, env=kit.goenv(),
                        stdout=subprocess.PIPE, stderr=subprocess.STDOUT, text=True)
     if p.returncode != 0:
         raise kit.Inconclusive("cannot build cmd/samaritan: " + p.stdout[-1500:])
+    return binp
+
+
+class AdminBusy:
+    """the adminbusy end-to-end run costs the 2 s grace period of admin.Server.Stop: it runs beside the other stages"""
+
+    def __init__(self, ctx, behs):
+        self.beh = next((b for b in behs if b["src"] == "seq" and requests_of(b) == ["admin", "drain", "term"]
+                         and not any(e["a"] == "sendbad" for e in b["beh"])), None)
+        self.out = self.exc = None
+        if self.beh is None:
+            raise kit.Inconclusive("no behaviour admin, drain, term for the adminbusy run")
+        self.run = {"id": 0, "kind": "adminbusy", "reqs": requests_of(self.beh)}
+        infile = os.path.join(ctx.work, "e2e-busy-runs.ndjson")
+        kit.write_ndjson(infile, [self.run])
+        self.rfile = os.path.join(ctx.work, "e2e-busy.ndjson")
+        args = ["c17-e2e", "-bin", os.path.join(kit.BIN_DIR, "samaritan-c17"), "-in", infile, "-out", self.rfile, "-work", ctx.work]
+
+        def work():
+            try:
+                self.out = harness_pg(ctx, args, 60)
+            except BaseException as e:
+                self.exc = e
+        self.t = threading.Thread(target=work, daemon=True)
+        self.t.start()
+
+    def join(self):
+        self.t.join()
+        if self.exc is not None:
+            raise self.exc
+        res = kit.read_ndjson(self.rfile) if os.path.exists(self.rfile) else []
+        if self.out[0] != 0 or len(res) != 1:
+            raise kit.Inconclusive("c17-e2e (adminbusy) exited %d: %s" % (self.out[0], self.out[2][-800:]))
+        return self.run, res[0], self.beh
+
+
+def run_e2e(ctx, behs, busy):
+    binp = os.path.join(kit.BIN_DIR, "samaritan-c17")
     rnd = random.Random(ctx.seed + 17)
     cand = []
     for b in behs:
@@ -487,11 +561,6 @@ def run_e2e(ctx, behs):
     rnd.shuffle(rest)
     picked += rest[:(10 if ctx.thorough else 1)]
     runs = [{"id": i, "kind": "scripted", "reqs": requests_of(b)} for i, b in enumerate(picked)]
-    # the same hand-over while an admin API client is in the middle of a request (health check, metrics scrape)
-    busy = [b for b in picked if requests_of(b) == ["admin", "drain", "term"]][:1]
-    for b in busy:
-        picked.append(b)
-        runs.append({"id": len(runs), "kind": "adminbusy", "reqs": requests_of(b)})
     runs.append({"id": len(runs), "kind": "realchild"})
     infile = os.path.join(ctx.work, "e2e-runs.ndjson")
     kit.write_ndjson(infile, runs)
@@ -500,6 +569,13 @@ def run_e2e(ctx, behs):
     res = kit.read_ndjson(rfile) if os.path.exists(rfile) else []
     if rc != 0 or len(res) != len(runs):
         raise kit.Inconclusive("c17-e2e exited %d after %d of %d runs: %s" % (rc, len(res), len(runs), se[-1000:]))
+    # the same hand-over while an admin API client is in the middle of a request (health check, metrics scrape):
+    # started earlier, beside the other stages
+    brun, bres, bbeh = busy.join()
+    brun = dict(brun, id=len(picked))
+    picked.append(bbeh)
+    runs.append(brun)
+    res.append(bres)
     infra = [r for r in res if r.get("infra")]
     if infra:
         raise kit.Inconclusive("c17-e2e: %s" % infra[0]["infra"])
@@ -520,6 +596,12 @@ def run_e2e(ctx, behs):
                 want = {"reply": x["reply"], "adminUp": par["admin"] and not gone, "accepting": par["accepting"] and not gone,
                         "estAlive": not gone, "alive": not gone}
                 got = {k: o[k] for k in want}
+                if run["kind"] == "adminbusy" and x["req"] == "admin" and got == want and o.get("lingering") != "closed":
+                    bad.append(("e2e/admin-connection-survives-stop",
+                                "the request to stop the admin API was acknowledged (%s) and the admin port no longer listens, but the admin "
+                                "connection that had a request in progress is still served by the old process 0.7 s later: %s" % (
+                                    o["reply"], o.get("lingering"))))
+                    break
                 if got != want:
                     if run["kind"] == "adminbusy" and x["req"] == "admin" and not o["alive"]:
                         bad.append(("e2e/admin-stop-with-open-connection-kills-old-process",
@@ -554,6 +636,31 @@ def run_e2e(ctx, behs):
 
 
 # --------------------------------------------------------------------------- long pauses
+
+def is_pipelined(b):
+    un = 0
+    for e in b["beh"]:
+        if e["a"] == "send":
+            if un > 0:
+                return True
+            un += 1
+        elif e["a"] == "recv":
+            un -= 1
+    return False
+
+
+def behind_step(b):
+    """the request whose step is running when the pipelined request is written"""
+    last, un = None, 0
+    for e in b["beh"]:
+        if e["a"] == "send":
+            if un > 0:
+                return last
+            un, last = un + 1, e["x"]
+        elif e["a"] == "recv":
+            un -= 1
+    return None
+
 
 def child_script(b):
     return [e["x"] if e["a"] == "send" else e["a"] for e in b["beh"] if e["a"] in ("send", "sendbad", "pause")]
@@ -617,6 +724,7 @@ def run_stages(ctx):
     # its next request (the real child sends terminate minutes after drain).  Real pauses cost wall clock, so these
     # few sequences run in the background, in their own processes, while everything else goes on.
     background = start_long_pauses(ctx, rnd)
+    build_samaritan()
 
     # 1. the format and the transcribed readMessage
     ctx.mc("hotrestart", "Frame", "MC_Frame.cfg", workers=4, timeout=180)
@@ -626,6 +734,10 @@ def run_stages(ctx):
         raise kit.Inconclusive("the transcribed pinned readMessage does not panic in the model: %s" % r.violated)
     if ctx.thorough:
         ctx.mc("hotrestart", "Frame", "MC_Frame_onechar.cfg", workers=1, timeout=180, count=False)
+    # the receive side as a sequence of reads: messages held by the caller stay what was sent; a message that points
+    # into a reused receive buffer must violate
+    ctx.mc("hotrestart", "FrameSeq", "MC_FrameSeq.cfg", workers=1, timeout=120)
+    ctx.mc("hotrestart", "FrameSeq", "MC_FrameSeq_alias.cfg", workers=1, timeout=120, expect_violated=["ResultsStable"], count=False)
 
     # 2. vectors through the real functions
     vec = gen_vectors(ctx)
@@ -640,9 +752,9 @@ def run_stages(ctx):
         ctx.mc("hotrestart", "Handover", "MC_Handover_env.cfg", workers=W, timeout=900)
     else:
         r = ctx.mc("hotrestart", "Handover", "MC_Handover_quick.cfg", workers=W, timeout=300, coverage=True)
-        ctx.check_vacuity(r, "Handover", ignore=("ChildPause", "ParentIdleClose", "AcceptFault"))
+        ctx.check_vacuity(r, "Handover", ignore=("ChildPause", "ParentIdleClose", "AcceptFault", "BgStep", "BgReply"))
         r = ctx.mc("hotrestart", "Handover", "MC_Handover_env_quick.cfg", workers=W, timeout=300, coverage=True)
-        ctx.check_vacuity(r, "Handover", ignore=("ParentIdleClose",))
+        ctx.check_vacuity(r, "Handover", ignore=("ParentIdleClose", "BgStep", "BgReply"))
     # the defect variants must still yield their counterexamples (anti-vacuity)
     ctx.mc("hotrestart", "Handover", "MC_Handover_noeof.cfg", workers=1, timeout=180,
            expect_violated=["NoStuckChild", "TEMPORAL"], count=False)
@@ -650,6 +762,8 @@ def run_stages(ctx):
            expect_violated=["AckMatches"], count=False)
     ctx.mc("hotrestart", "Handover", "MC_Handover_acceptexit.cfg", workers=1, timeout=180,
            expect_violated=["NoStuckChild", "TEMPORAL"], count=False)
+    ctx.mc("hotrestart", "Handover", "MC_Handover_asyncdrain.cfg", workers=1, timeout=180,
+           expect_violated=["StepOncePerRequestInOrder", "AckMatches", "AckAfterStep"], count=False)
 
     # 4. behaviours on the real Restarter
     q = "" if ctx.thorough else "_quick"
@@ -659,9 +773,15 @@ def run_stages(ctx):
     fault = [b for b in gen_behaviours(ctx, "Gen_Handover_fault.cfg", "fault") if any(e["a"] == "acceptfault" for e in b["beh"])]
     rnd.shuffle(fault)
     behs += fault[:(200 if ctx.thorough else 12)]
+    # pipelined children: the next request is written while the parent is inside the (slow) step of the previous one
+    pipe = [b for b in gen_behaviours(ctx, "Gen_Handover_pipe.cfg", "pipe") if is_pipelined(b) and not any(e["a"] == "sendbad" for e in b["beh"])]
+    rnd.shuffle(pipe)
+    pipe.sort(key=lambda b: 0 if behind_step(b) == "drain" else 1)      # a drain that takes time first
+    behs += pipe[:(150 if ctx.thorough else 12)]
     for i, b in enumerate(behs):
         b["id"] = i
     ctx.sample({"behaviour": [(e["a"], e["c"], e["x"]) for e in next(b for b in behs if b["src"] == "drop" and len(b["beh"]) > 14)["beh"]]})
+    busy = AdminBusy(ctx, behs)
     pool = bad_pool(vec)
     _, traces, stopped = run_sequences(ctx, behs, pool, "real", "real", extra=["-burst", "6"])
     # exact count of terminate signals: the package's kill variable records instead of signalling
@@ -686,7 +806,7 @@ def run_stages(ctx):
     validate(ctx, traces3 + [t for t in traces if t["id"] not in hasterm] + traces2, 260000 if ctx.thorough else 30000)
 
     # 6. the steps on the real binary (real instance: admin API, listeners, process exit) and a real child
-    run_e2e(ctx, behs)
+    run_e2e(ctx, behs, busy)
 
     ctx.cov["exhaustive"] = False
     ctx.cov["exhaustive_within_bounds"] = True
